@@ -206,6 +206,33 @@ def expr_text(e):
     return {"ident": lambda: e[1], "sel": lambda: "%s.%s" % (e[1], e[2]), "sel2": lambda: "%s.%s.%s" % (e[1], e[2], e[3])}[e[0]]()
 
 
+def pkg_text(p):
+    """source of an imported package; p["docs"] (optional) overrides the doc comment of a function"""
+    lines = ["// Package %s is generated." % p["name"], "package %s" % p["name"], ""]
+    if p["ns"]:
+        lines += ['import "github.com/magefile/mage/mg"', ""]
+    for ns, ms in p["ns"]:
+        lines.append("type %s mg.Namespace\n" % ns)
+        for m, v in ms:
+            lines.append(fn_text(m, v, ns))
+    for fn, v in p["funcs"]:
+        t = fn_text(fn, v)
+        if fn in p.get("docs", {}):
+            t = "// %s\n" % p["docs"][fn] + t[t.index("func "):]
+        lines.append(t)
+    return "\n".join(lines) + "\n"
+
+
+def gen_history(rng, pr):
+    """states of ONE imported package while the magefiles stay byte-identical: the original, a target added,
+    that target renamed + the doc comment of another changed, the original again"""
+    path = rng.choice(bsorted(pr["pkgs"]))
+    p0 = pr["pkgs"][path]
+    p1 = dict(p0, funcs=p0["funcs"] + [["Added7", rng.choice([0, 1])]])
+    p2 = dict(p0, funcs=p0["funcs"] + [["Renamed7", 1]], docs={p0["funcs"][0][0]: "%s has a new description." % p0["funcs"][0][0]})
+    return {"path": path, "states": [["original", p0], ["target-added", p1], ["renamed+doc-changed", p2], ["original-again", p0]]}
+
+
 def render(pr, order=None):
     """{relative path: text}; order = the order in which the files are created"""
     mod = "example.test/" + pr["name"]
@@ -251,16 +278,7 @@ def render(pr, order=None):
                 lines.append("}\n")
         out[f] = "\n".join(lines) + "\n"
     for path, p in pr["pkgs"].items():
-        lines = ["// Package %s is generated." % p["name"], "package %s" % p["name"], ""]
-        if p["ns"]:
-            lines += ['import "github.com/magefile/mage/mg"', ""]
-        for ns, ms in p["ns"]:
-            lines.append("type %s mg.Namespace\n" % ns)
-            for m, v in ms:
-                lines.append(fn_text(m, v, ns))
-        for fn, v in p["funcs"]:
-            lines.append(fn_text(fn, v))
-        out[path + "/x.go"] = "\n".join(lines) + "\n"
+        out[path + "/x.go"] = pkg_text(p)
     out["go.mod"] = projlib.GO_MOD % (pr["name"], REPO)
     names = list(out)
     if order == "reverse":
@@ -398,6 +416,47 @@ def fresh_runs(mage, d, n, cache):
     return res, first
 
 
+def run_history(ctx, mage, binp, d, pr):
+    """the history of pr["history"] in directory d, once per cache mode.  Per state: `mage -keep -l` with the cache
+    directory that has seen the whole history so far, the same with a fresh cache directory, and (default mode)
+    the in-process projection of the sources as they are now."""
+    h = pr["history"]
+    main = os.path.join(d, MAINFILE)
+    src = os.path.join(d, h["path"], "x.go")
+    out = []
+    def gen(env, cache):
+        if os.path.exists(main):
+            os.remove(main)
+        r = mage.run(d, ["-keep", "-l"], env=env, timeout=300, cache=cache)
+        text = None
+        if os.path.exists(main):
+            text = open(main, "rb").read().decode("utf-8", "replace")
+            os.remove(main)
+        return text, r["rc"], r["err"][-300:]
+    for mode, env in (("default", None), ("hashfast", {"MAGEFILE_HASHFAST": "1"})):
+        kept = os.path.join(ctx.tmp, "hist_%s_%s" % (pr["name"], mode))
+        for si, (label, pkg) in enumerate(h["states"]):
+            if mode == "hashfast" and si >= 2:
+                break           # from the second state on this mode runs the cached binary and generates nothing
+            with open(src, "w") as f:
+                f.write(pkg_text(pkg))
+            t_kept, rc1, e1 = gen(env, kept)
+            fresh = os.path.join(ctx.tmp, "hist_%s_%s_fresh%d" % (pr["name"], mode, si))
+            t_fresh, rc2, e2 = gen(env, fresh)
+            subprocess_rm(fresh)
+            ans = run_op(binp, d, pr, 2, 0, False) if mode == "default" else None
+            out.append({"mode": mode, "state": si, "label": label, "kept": t_kept, "fresh": t_fresh, "rc": (rc1, rc2), "err": (e1, e2), "op": ans})
+    with open(src, "w") as f:
+        f.write(pkg_text(h["states"][0][1]))
+    return out
+
+
+def subprocess_rm(path):
+    import subprocess
+    subprocess.run(["chmod", "-R", "u+w", path], stderr=subprocess.DEVNULL)
+    shutil.rmtree(path, ignore_errors=True)
+
+
 def run_op(binp, d, pr, reps, real_reps, render_):
     mod = "example.test/" + pr["name"]
     paths = sorted({mod + "/" + s["path"] for f in pr["files"] for s in pr["specs"][f]})
@@ -425,6 +484,7 @@ def run(ctx):
     nproj = 10 if quick else 40
     runs_a, runs_b = (12, 4) if quick else (64, 16)
     reps, nprocs = (40, 4) if quick else (500, 4)
+    nhist = 3 if quick else 16
     projects = []
     if ctx.replay and ctx.replay.get("case"):
         c = ctx.replay["case"]
@@ -433,6 +493,8 @@ def run(ctx):
     else:
         for i in range(nproj):
             projects.append(gen_project(rng, i))
+        for pr in projects[:nhist]:
+            pr["history"] = gen_history(rng, pr)
         projects.append(error_project(rng, nproj))
 
     # create the projects
@@ -445,6 +507,8 @@ def run(ctx):
         dc = mage.project(render(pr), name=pr["name"] + "_ops", probe=False)
         dd = mage.project(render(pr, "reverse"), name=pr["name"] + "_ops2", probe=False)
         dirs[pr["name"]] = (da, db, dc, dd)
+        if pr.get("history"):
+            dirs[pr["name"] + "/hist"] = mage.project(render(pr), name=pr["name"] + "_hist", probe=False)
 
     # tasks
     tasks = []
@@ -453,9 +517,12 @@ def run(ctx):
         if not pr.get("error"):
             tasks.append((pi, "A", lambda da=da: fresh_runs(mage, da, runs_a, os.path.join(ctx.tmp, "cache_a"))))
             tasks.append((pi, "B", lambda db=db: fresh_runs(mage, db, runs_b, os.path.join(ctx.tmp, "cache_b"))))
+        if pr.get("history") and not pr.get("error"):
+            tasks.append((pi, "H", lambda pr=pr: run_history(ctx, mage, binp, dirs[pr["name"] + "/hist"], pr)))
         for k in range(nprocs):
             d = dc if k % 2 == 0 else dd
             tasks.append((pi, "op%d" % k, lambda d=d, pr=pr, k=k: run_op(binp, d, pr, reps, 2 if k == 0 else 0, k < 2)))
+    tasks.sort(key=lambda t: t[1] != "H")          # the histories are the longest tasks: start them first
     ctx.log("projects created; %d tasks" % len(tasks))
     import time as _t
     def timed(t):
@@ -474,6 +541,7 @@ def run(ctx):
 
     items, item_proj = [], []
     build_failures = []
+    hist_gens, hist_cov = 0, {}
     n_oracle = 0
     cov = ctx.coverage
     tot_runs = tot_reps = 0
@@ -551,6 +619,37 @@ def run(ctx):
                            "file_sha1": file_sha, "in_process_sha1": main_shas[0]}, case=case, found_input=False)
         items.append(case_term(pr, ops[0], proj, fobs))
         item_proj.append((pr, proj, fobs))
+        # ---- oracle 4: a history of edits of an imported package, magefiles byte-identical, one cache directory
+        for st in r.get("H", []):
+            hist_gens += (st["kept"] is not None) + (st["fresh"] is not None)
+            tag = "%s/%s" % (st["mode"], st["label"])
+            hist_cov[tag] = hist_cov.get(tag, 0) + 1
+            if st["fresh"] is None or st["rc"][1] != 0:
+                build_failures.append("history of %s, state %s: `mage -keep -l` with a fresh cache failed: %s" % (pr["name"], tag, st["err"][1]))
+                continue
+            if st["kept"] is None:
+                # hash-fast mode runs the cached binary without generating anything (documented; C08's subject)
+                hist_cov["no generation (cached binary ran)"] = hist_cov.get("no generation (cached binary ran)", 0) + 1
+                if st["mode"] == "default":
+                    build_failures.append("history of %s, state %s: no main file generated: %s" % (pr["name"], tag, st["err"][0]))
+                continue
+            first = [x for x in r["H"] if x["mode"] == st["mode"] and x["state"] == 0][0]
+            clause = None
+            if st["kept"] != st["fresh"]:
+                clause = ("after the imported package %s was edited (%s; magefiles byte-identical) `mage -keep -l` with the cache directory of the earlier runs "
+                          "generates a main file that differs from the one generated from the same sources with a fresh cache directory" % (pr["history"]["path"], st["label"]))
+            elif st["label"] == "original-again" and first["kept"] is not None and st["kept"] != first["kept"]:
+                clause = "back at the first contents of %s the generated main file is not the first one again" % pr["history"]["path"]
+            if clause and n_oracle < 3:
+                n_oracle += 1
+                diff = [(a, b) for a, b in zip(st["kept"].splitlines(), st["fresh"].splitlines()) if a != b][:3]
+                ctx.violation({"kind": "oracle", "clause": clause, "cache_mode": st["mode"], "state": st["state"],
+                               "kept_cache_sha1": hashlib.sha1(st["kept"].encode()).hexdigest(), "fresh_cache_sha1": hashlib.sha1(st["fresh"].encode()).hexdigest(),
+                               "first_differing_lines(kept,fresh)": diff, "lines(kept,fresh)": (len(st["kept"].splitlines()), len(st["fresh"].splitlines()))}, case=case)
+            if st["op"] is not None:
+                hp = st["op"]["distinct"][0]["proj"]
+                items.append(case_term(pr, st["op"], hp, read_main(st["kept"])))
+                item_proj.append((pr, hp, {"history_state": tag}))
         if pi < 2:
             ctx.sample({"project": pr["name"], "competing": comp, "description": proj.get("desc", ""), "association": [(i["path"], i["unique"]) for i in proj["imports"]],
                         "aliases": proj["aliases"][:4], "default": proj["default"]})
@@ -565,7 +664,10 @@ def run(ctx):
                           case={"project": pr, "runs_a": runs_a, "runs_b": runs_b, "reps": reps, "nprocs": nprocs}, found_input=False)
     if build_failures and not ctx.violations:
         raise BuildError("; ".join(build_failures)[:3000])
-    cov["evaluations"] = tot_runs + tot_reps
+    cov["history_generations"] = hist_gens
+    cov["history_states"] = hist_cov
+    cov["histories"] = sum(1 for p in projects if p.get("history") and not p.get("error"))
+    cov["evaluations"] = tot_runs + tot_reps + hist_gens
     cov["distinct_nontrivial"] = nontriv
     cov["rule"] = ("one evaluation = one generation of the main file (a fresh `mage -keep -l` process, or one in-process parse.PrimaryPackage+sort(+render) repetition); "
                    "distinct = generated projects; non-trivial = at least one competing pair (equal package names among named or among root imports, one path with two aliases, or two non-empty package comments)")
